@@ -142,6 +142,44 @@ def drive(rec, part, ms, quick):
                     rec.violation("%s m=%d wrote outside its output" % (fn, m), {})
                     continue
                 emit("to_znx64", fn, m, [dbits(v) for v in xs], [to_words(int(v), 4) for v in R.i64], {"dl": dl, "bound": bound}, mask)
+        # ---------------- to_znx64 and to_tnx32 under every declared bound / overhead (the table picks its kernel from it), m below and
+        # above the vector threshold, both dispatch configurations
+        if m in (4, 16):
+            for bound in range(0, 65):
+                lim = min(bound, 52)
+                dl = rng.choice([0, 3, -2])
+                ys = fill(y_values("to_znx64", lim, rng, max(n, 40)), n, rng)
+                xs = [y * 2.0 ** dl for y in ys]
+                for mask in (MASK_NONE, MASK_GENERIC):
+                    X, R = Buf(8 * n, off=rng.choice([0, 8, 24])), Buf(8 * n, fill=0xEE)
+                    X.f64[:] = xs
+                    if not rec.progress("reim_to_znx64 m=%d dl=%d bound=%d mask=%d (sweep)" % (m, dl, bound, mask)):
+                        continue
+                    t = tables.get("new_reim_to_znx64_precomp", m, mask, ("d", 2.0 ** dl), ("w", bound))
+                    L.fn("reim_to_znx64", "v ppp")(t, R.addr, X.addr)
+                    rec.case(("to_znx64", "sweep", m, mask, bound))
+                    if not (X.canaries_ok() and R.canaries_ok()):
+                        rec.violation("reim_to_znx64 m=%d bound=%d wrote outside its output" % (m, bound), {})
+                        continue
+                    emit("to_znx64", "reim_to_znx64", m, [dbits(v) for v in xs], [to_words(int(v), 4) for v in R.i64], {"dl": dl, "bound": bound}, mask)
+            for ovh in range(0, 53):
+                dl = rng.choice([0, 20, -3, 5])
+                ys = fill(y_values("to_tnx32", min(18, max(ovh, 1)), rng, max(n, 40)), n, rng)
+                xs = [y * 2.0 ** dl for y in ys]
+                for mask in (MASK_NONE, MASK_GENERIC):
+                    X, R = Buf(8 * n, off=rng.choice([0, 8, 24])), Buf(4 * n, fill=0xEE)
+                    X.f64[:] = xs
+                    if not rec.progress("cplx_to_tnx32 m=%d dl=%d ovh=%d mask=%d (sweep)" % (m, dl, ovh, mask)):
+                        continue
+                    t = tables.get("new_cplx_to_tnx32_precomp", m, mask, ("d", 2.0 ** dl), ("w", ovh))
+                    L.fn("cplx_to_tnx32", "v ppp")(t, R.addr, X.addr)
+                    rec.case(("to_tnx32", "sweep", m, mask, ovh))
+                    if not (X.canaries_ok() and R.canaries_ok()):
+                        rec.violation("cplx_to_tnx32 m=%d ovh=%d wrote outside its output" % (m, ovh), {})
+                        continue
+                    order = [(i // 2) + (m if i % 2 else 0) for i in range(n)]
+                    rv = R.view(np.int32)
+                    emit("to_tnx32", "cplx_to_tnx32", m, [dbits(xs[i]) for i in range(n)], [to_words(int(rv[order[i]]), 2) for i in range(n)], {"dl": dl}, mask)
         # ---------------- int32 -> complex
         for conv, base in (("from_znx32", "cplx_from_znx32"), ("from_tnx32", "cplx_from_tnx32")):
             vals = [0, 1, -1, (1 << 31) - 1, -(1 << 31), 1 << 30, -(1 << 30) - 1] + [rng.randrange(-(1 << 31), 1 << 31) for _ in range(n)]
